@@ -204,6 +204,7 @@ pub fn gen_fault(seed: u64, n: usize) -> Vec<Scenario> {
             sc.faults.push(Fault {
                 at_send,
                 from_send: 0,
+                until_send: 0,
                 at_recv: -1,
                 op: op.into(),
                 kind: kind.into(),
@@ -213,6 +214,7 @@ pub fn gen_fault(seed: u64, n: usize) -> Vec<Scenario> {
             sc.faults.push(Fault {
                 at_send: -1,
                 from_send: 0,
+                until_send: 0,
                 at_recv: rng.random_range(0..200),
                 op: (*pick(&mut rng, &["select", "read"])).into(),
                 kind: (*pick(&mut rng, &["other", "wouldblock"])).into(),
@@ -281,12 +283,30 @@ pub fn gen_storm(seed: u64, n: usize) -> Vec<Scenario> {
         sc.faults.push(Fault {
             at_send: -1,
             from_send: rng.random_range(1..40),
+            until_send: 0,
             at_recv: -1,
             op: (*pick(&mut rng, &["bind", "connect"])).into(),
             kind: "addrinuse".into(),
         });
         sc.init_seq = *pick(&mut rng, &[0, 33434, 63999, 64511]);
         sc.max_rounds = 4;
+        if rng.random_bool(0.5) {
+            // the storm stops so that the last sequence number of the budget (offset 511) is sent
+            // successfully in round 0 while further TTLs remain to be probed
+            let j = rng.random_range(1..4);
+            sc.faults[0].from_send = j;
+            sc.faults[0].until_send = 511;
+            sc.max_ttl = 30;
+            sc.first_ttl = 1;
+            sc.max_inflight = 24;
+            for p in &mut sc.topo.paths {
+                // nothing answers before the budget is exhausted
+                p.dist = 0;
+                for h in &mut p.hops {
+                    h.silent = true;
+                }
+            }
+        }
     }
     v
 }
